@@ -92,9 +92,12 @@ def run(A, R: Report, thorough: bool):
                 k0 = t.comparators[0].value + 1   # indices < k0 skipped (i == 0 -> one skipped)
             if isinstance(t, ast.Compare) and src(t.left) == iv and isinstance(t.ops[0], ast.Lt) and isinstance(t.comparators[0], ast.Constant):
                 k0 = t.comparators[0].value
+        other_skips = [s_ for s_ in skips if not (isinstance(s_.test, ast.Compare) and src(s_.test.left) == iv and isinstance(s_.test.ops[0], (ast.Eq, ast.Lt)) and isinstance(s_.test.comparators[0], ast.Constant))]
         pos = [n for n in ast.walk(lp) if isinstance(n, ast.Assign) and isinstance(n.targets[0], ast.Subscript) and src(n.targets[0].slice) == argv and isinstance(n.value, ast.Subscript) and src(n.value.value) == 'args']
         problems = []
         bind_dict = None
+        for s_ in other_skips:
+            problems.append(f'parameters are skipped under `{src(s_.test)[:60]}`: their defaults / values never reach the binding, so spelling a default out changes the key')
         if not pos:
             problems.append('positional arguments are not moved into the binding')
         for p in pos:
